@@ -93,7 +93,7 @@ var props = map[string]propCfg{
 	"C19": {Focus: "C19", Arms: []string{"clean"}, Probes: []string{"cache_hit", "cache_hit_last_quarter", "c07_hit_expected"}},
 	"C09": {Focus: "C09", Arms: []string{"clean"}, Probes: []string{"c09_truncated", "c09_fits"}},
 	"C10": {Focus: "C10", Arms: []string{"clean", "startfault"}, Probes: []string{"c10_forward_checked", "c10_reject", "c10_refused"}},
-	"C11": {Focus: "C11", Arms: []string{"clean"}, Probes: []string{"c10_forward_checked"}},
+	"C11": {Focus: "C11", Arms: []string{"clean"}, Probes: []string{"c10_forward_checked", "c11_matched", "c11_unmatched"}},
 	"C12": {Focus: "C12", Arms: []string{"clean"}, Probes: []string{"c12_client_opt_checked", "c12_upstream_opt_checked", "c12_ecs_checked"}},
 	"C13": {Focus: "C13", Arms: []string{"clean", "overload"}, Probes: []string{"c13_conn_checked", "c13_pipelined", "c13_overload"}},
 }
